@@ -7,6 +7,7 @@ import ast, copy, os, random, subprocess, sys, time
 
 REPO, SHARD, NSH = sys.argv[1], int(sys.argv[2]), int(sys.argv[3])
 MAX = int(sys.argv[4]) if len(sys.argv) > 4 else 100
+START = int(sys.argv[5]) if len(sys.argv) > 5 else 0
 V = os.path.dirname(os.path.dirname(os.path.abspath(__file__)))
 assert os.path.realpath(REPO) != "/repo", "never mutate /repo itself"
 
@@ -189,7 +190,7 @@ def main():
             allm.append((fname, k))
     rnd = random.Random(20261001)
     rnd.shuffle(allm)
-    mine = [m for i, m in enumerate(allm) if i % NSH == SHARD][:MAX]
+    mine = [m for i, m in enumerate(allm) if i % NSH == SHARD][START:START + MAX]
     print("total mutation sites: %d; this shard runs %d" % (len(allm), len(mine)), flush=True)
     for fname, k in mine:
         path = os.path.join(REPO, "pygamma_agreement", fname)
